@@ -68,7 +68,11 @@ func (exec *Executor) executeUnaryBoolItem(
 			return predTrue, nil
 		}
 	case ast.UnaryIsUnknown:
-		res, _ := exec.executeBoolItem(ctx, node.Operand(), value, false)
+		res, err := exec.executeBoolItem(ctx, node.Operand(), value, false)
+		if err != nil && ctx.Err() != nil {
+			// Cancellation is never an unknown result.
+			return predUnknown, err
+		}
 		return predFrom(res == predUnknown), nil
 	case ast.UnaryExists:
 		if exec.strictAbsenceOfErrors() {
